@@ -23,7 +23,9 @@ claim('C20',
       'parameter whose (char, entity) pairs cover the XML predefined-entity table and the three '
       'characters a parser normalises (TAB, LF, CR; each by a character reference of its own code '
       'point - rule D5, which found defect F11) and in which no '
-      'later link can rewrite the output of an earlier one (ampersand first); format_hms, '
+      'later link can rewrite the output of an earlier one (ampersand first); a path that returns '
+      'the text unchanged (shortcut) establishes the absence of every character the chain '
+      'rewrites (D6); format_hms, '
       'interpreted over rational normal forms for both unit modes, has the specified decision '
       'table (sub-10 s branch on the scaled duration with 3 decimals; thresholds 60/3600 tested on '
       'the ROUNDed value; fields FLOOR(R/3600), FLOOR(R/60)-60*FLOOR(R/3600), R-60*FLOOR(R/60) with '
@@ -121,7 +123,10 @@ claim('C03',
       'D9 the classification "never reverses" (position = initial direction * steps with no bound '
       'on the step count) must imply that the rate keeps its sign after tick 1 - the two regions '
       'of (rate, accel) are compared on integer points and a violation names a point (this rule '
-      'found defect F10, fixed in /repo 3803b08); D10 the steps made before a reversal are '
+      'found defect F10, fixed in /repo 3803b08); D11 conversely, a path taken because the step '
+      'count exceeds the steps made before a reversal lies in the region where the rate does '
+      'change sign after tick 1 (rest at tick 1 included, even and odd accel); D10 the steps made '
+      'before a reversal are '
       'FLOOR(|C(T)|/2^31) with the accumulator polynomial of D3. NOT decided: minimality of the '
       'chosen root and the accumulator range when the accumulator lands exactly on a step '
       'boundary (measure-zero coincidences; DESIGN.md 4.3).',
@@ -164,7 +169,10 @@ claim('C08',
       'outside one side; otherwise exactly one outside end point is replaced by the intersection '
       'of the current line with a boundary it is outside of, orientation kept, all division '
       'denominators provably non-zero, counter incremented; with the counter above every literal '
-      'the loop always returns (bounded). Not decided: the floating-point tolerance clauses and '
+      'the loop always returns (bounded). A region test against a boundary moved by a constant '
+      '(absolute tolerance) is reported with a small-scale witness; returns ahead of the loop are '
+      'judged on exact rational inputs against Liang-Barsky clipping (mismatch = violation, '
+      'agreement = cannot conclude). Not decided: the floating-point tolerance clauses and '
       'what the failsafe returns near precision limits.',
       'Trusted: Python ast, vf/interp.py, vf/order.py, vf/poly.py. Step correctness + boundedness '
       'imply the exact-arithmetic statement by the standard Cohen-Sutherland invariant (each step '
